@@ -237,8 +237,11 @@ def check_mapper(name, rec, g, info) -> tuple[Failure | None, dict]:
                        f"{4 * N + 50} map_* invocations on a graph of {N} "
                        f"nodes", name), stats
     except ValueError as e:
-        if dup and ("collision" in str(e) or "duplicate" in str(e)
-                    or type(e).__name__ == "NameClashError"):
+        # (a mapper that is there to REMOVE duplicates has no business
+        # reporting them)
+        if dup and rec["needs_dedup"] and (
+                "collision" in str(e) or "duplicate" in str(e)
+                or type(e).__name__ == "NameClashError"):
             # (two distinct equal inputs of one name are what the names
             # checker exists to report)
             stats["collision_reported"] = True
@@ -436,12 +439,15 @@ def substitution_check(g, info) -> Failure | None:
     except Exception:  # noqa: BLE001
         return None                      # (graphs with clashing duplicates)
     nodes = list(reflect.walk(gd, into_functions=False).values())
+    # (size parameters too, unless the graph reaches one only through the
+    # bound of a slice: the listed finding C13-slice-bound-arrays)
     leaves = [n for n in nodes if isinstance(n, (pt.Placeholder,
-                                                 pt.DataWrapper))]
+                                                 pt.DataWrapper,
+                                                 pt.SizeParam))]
 
     def same(x, L):
-        return x is L or (isinstance(L, pt.Placeholder)
-                          and isinstance(x, pt.Placeholder) and x == L)
+        return x is L or (isinstance(L, (pt.Placeholder, pt.SizeParam))
+                          and type(x) is type(L) and x == L)
     for L in leaves:
         Lt = L.tagged(PvfTag("subst"))
         try:
@@ -452,7 +458,12 @@ def substitution_check(g, info) -> Failure | None:
                            f"map_and_copy replacing {type(L).__name__} "
                            f"'{getattr(L, 'name', None)}': "
                            f"{type(e).__name__}: {e}", exc_site(e))
-        rn = list(reflect.walk(r, into_functions=False).values())
+        # (what hangs only on the bound of a slice is not traversed by any
+        # mapper - the listed finding C13-slice-bound-arrays - and is not
+        # looked at here for size parameters)
+        rn = list(reflect.walk(
+            r, into_functions=False,
+            into_slices=not isinstance(L, pt.SizeParam)).values())
         left = [n for n in rn if same(n, L)]
         if left:
             users = [type(n).__name__ for n in rn if any(
